@@ -112,7 +112,7 @@ func GenRace(c Chooser) (r *Race, foreignAt int) {
 	ids := []int{7, 19, 4}
 	for i := 0; i < nOps; i++ {
 		tag := fmt.Sprintf("op%d.", i)
-		op := RaceOp{ID: ids[i], Addr: 0x00c0000e4030, Write: c.Choose(2, tag+"write") == 1}
+		op := RaceOp{ID: ids[i], Addr: 0x00c0000e4030 + uint64(2*i), Write: c.Choose(2, tag+"write") == 1}
 		op.Calls = raceStack(c, tag, i)
 		r.Ops = append(r.Ops, op)
 	}
